@@ -75,6 +75,13 @@ def report(res, verbose=False, partial=False):
                explanation=('every obligation is generated from the current source text of /repo by pyvc and '
                             'discharged by z3 (cvc5 for z3-unknowns); counts are distinct named obligations, '
                             'each possibly checked on several paths'))
+    if 'audit' in res:
+        cov['audit_sites'] = res['audit']['sites']
+        cov['audit_inferred_sets'] = res['audit']['inferred']
+        cov['explanation'] = ('order-sensitive uses of sets and other sources of run-to-run variation are enumerated from the '
+                              'current source by an AST audit (pyvc/audit_c15.py); each is accepted by a stated rule or by a '
+                              'discharged pyvc obligation proving the enclosing function independent of the enumeration order; '
+                              + cov['explanation'])
     ev = dict(property_id=pid, tier=res['tier'], seed=res['seed'], level=level, coverage=cov,
               assumptions=trusted, wall_s=round(res['wall'], 2), violations=len(violations))
     if not partial:
